@@ -48,7 +48,7 @@ pub open spec fn conv_out(i: int, k: int, s: int, d: int) -> int { (i - (k - 1) 
                 width * self.stride.1 <= iw - (kw - 1) * self.dilation.1 - 1,
 //@end
 
-//@unit conv.convolve prop=C02,C08
+//@unit conv.convolve prop=C02,C08 search=conv.forward
 impl Convolution {
 fn convolve(
     &self,
